@@ -301,7 +301,7 @@ func sameStrings(a, b []string) bool {
 // c19Targets: decoration lists of different node types and points, among them the End points the
 // restorer hands to go/printer through a node's Comment field (Field, ImportSpec, ValueSpec, TypeSpec).
 // The source holds one other comment, so that go/printer works from the file's comment list.
-const c19Src = "package p\n\nimport \"fmt\"\n\n// fixed\nvar v = fmt.Sprint()\n\ntype t struct {\n\ta int\n}\n\ntype u int\n\nfunc f(a int) {\n\tx()\n\tif a > 0 {\n\t\ty()\n\t}\n}\n"
+const c19Src = "package p\n\nimport \"fmt\"\n\n// fixed\nvar v = fmt.Sprint()\n\ntype t struct {\n\ta int\n}\n\ntype u int\n\nfunc f(a int) {\n\tx()\n\tif a > 0 {\n\t\ty()\n\t}\n}\n\nvar c1 chan int\n\nvar c2 <-chan int\n\nvar c3 chan<- int\n\nvar m map[int]int\n\nvar s = a[1:2]\n\nvar e = [...]int{1}\n"
 
 var c19Targets = []struct {
 	Name string
@@ -341,6 +341,30 @@ var c19Targets = []struct {
 		return &f.Decls[4].(*dst.FuncDecl).Decs.Params
 	}},
 	{"File.Name", func(f *dst.File) *dst.Decorations { return &f.Decs.Name }},
+	{"ChanType(chan).Begin", func(f *dst.File) *dst.Decorations {
+		return &f.Decls[5].(*dst.GenDecl).Specs[0].(*dst.ValueSpec).Type.(*dst.ChanType).Decs.Begin
+	}},
+	{"ChanType(chan).Arrow", func(f *dst.File) *dst.Decorations {
+		return &f.Decls[5].(*dst.GenDecl).Specs[0].(*dst.ValueSpec).Type.(*dst.ChanType).Decs.Arrow
+	}},
+	{"ChanType(<-chan).Arrow", func(f *dst.File) *dst.Decorations {
+		return &f.Decls[6].(*dst.GenDecl).Specs[0].(*dst.ValueSpec).Type.(*dst.ChanType).Decs.Arrow
+	}},
+	{"ChanType(chan<-).Arrow", func(f *dst.File) *dst.Decorations {
+		return &f.Decls[7].(*dst.GenDecl).Specs[0].(*dst.ValueSpec).Type.(*dst.ChanType).Decs.Arrow
+	}},
+	{"MapType.Key", func(f *dst.File) *dst.Decorations {
+		return &f.Decls[8].(*dst.GenDecl).Specs[0].(*dst.ValueSpec).Type.(*dst.MapType).Decs.Key
+	}},
+	{"SliceExpr.High", func(f *dst.File) *dst.Decorations {
+		return &f.Decls[9].(*dst.GenDecl).Specs[0].(*dst.ValueSpec).Values[0].(*dst.SliceExpr).Decs.High
+	}},
+	{"SliceExpr.Max", func(f *dst.File) *dst.Decorations {
+		return &f.Decls[9].(*dst.GenDecl).Specs[0].(*dst.ValueSpec).Values[0].(*dst.SliceExpr).Decs.Max
+	}},
+	{"ArrayType.Len", func(f *dst.File) *dst.Decorations {
+		return &f.Decls[10].(*dst.GenDecl).Specs[0].(*dst.ValueSpec).Values[0].(*dst.CompositeLit).Type.(*dst.ArrayType).Decs.Len
+	}},
 }
 
 // c19Render checks that the strings All() returns are exactly what is rendered, in order, at every target.
